@@ -84,7 +84,7 @@ class Stats(object):
         self.executions = 0
 
 
-def bfs(model, maxdepth, max_transitions, validate='first', on_violation=None):
+def bfs(model, maxdepth, max_transitions, validate='first', on_violation=None, on_state=None, max_states=None):
     """model must provide:
         events                      list of hashable events
         fresh()                     new real object
@@ -122,6 +122,8 @@ def bfs(model, maxdepth, max_transitions, validate='first', on_violation=None):
     validated = set()
     frontier = collections.deque([((), k0)])
     st.states = 1
+    if on_state:
+        on_state((), obj0)
     while frontier:
         h, hk = frontier.popleft()
         if len(h) >= maxdepth:
@@ -150,6 +152,12 @@ def bfs(model, maxdepth, max_transitions, validate='first', on_violation=None):
                 seen[k] = h2
                 st.states += 1
                 st.maxdepth = max(st.maxdepth, len(h2))
+                if on_state:
+                    on_state(h2, obj)   # the live object is not used by the search afterwards
+                if max_states is not None and st.states >= max_states:
+                    st.cap = 'states %d' % max_states
+                    frontier.clear()
+                    break
                 frontier.append((h2, k))
             elif merging and seen[k] != h2:
                 st.merges += 1
